@@ -16,6 +16,9 @@ P2  (a) scenario catalogue: TLC (Gen_Pipe) generates scripts x payload sizes
     (b) system-call level: TLC (Gen_PipeK) generates histories of requests on
     one pipe (raw kernel calls, and through Concurrent); the harness replays
     them on the real objects with sizes scaled / mapped to the real boundaries.
+P2c a reduced slice of the growth module G05 (checks.g05.run_stage; spec/ReadBuiltin.tla):
+    the `read` built-in fed through a pipe in chunks of 1-3 bytes with characters of
+    2-4 bytes, judged by ReadBuiltin.tla (status, variables, bytes left in the pipe).
 P3  every record produced by the real code -- one per (scenario, distinct
     observation) and one per executed system-call step -- is validated by TLC
     (Trace_Pipe) against PipeData with the REAL constants 512 / 1024.
@@ -23,6 +26,7 @@ P3  every record produced by the real code -- one per (scenario, distinct
 import json
 import os
 import re
+import threading
 import time
 from concurrent.futures import ThreadPoolExecutor
 
@@ -69,6 +73,21 @@ E2E = {
     "thorough": ["--dfs", "8", "--dfs-max", "250", "--windows", "10,25,60,150", "--win-depth", "4", "--win-max", "16",
                  "--random", "40"],
 }
+
+
+class _LockedReporter:
+    """Reporter shared with the stage that runs concurrently (checks.g05.run_stage)."""
+
+    def __init__(self, rep):
+        self._rep = rep
+        self._lock = threading.Lock()
+
+    def violation(self, key, detail, replay_obj):
+        with self._lock:
+            return self._rep.violation(key, detail, replay_obj)
+
+    def __getattr__(self, name):
+        return getattr(self._rep, name)
 
 
 def _mc_one(cfg, expect, workers):
@@ -172,12 +191,16 @@ def _validate_k(rep, trace, src, histories, level_of, shards):
 def run(tier):
     t0 = time.time()
     wd = vlib.workdir(PID)
-    rep = vlib.Reporter(PID)
+    rep = _LockedReporter(vlib.Reporter(PID))
     vlib.build_harness(PKG)
     consts = _check_consts()
     samples = []
-    with ThreadPoolExecutor(max_workers=1) as bg:
+    from checks import g05
+    with ThreadPoolExecutor(max_workers=2) as bg:
         mc_future = bg.submit(_model_check, tier)
+        # the `read` built-in taking its input from a pipe in small chunks (characters of
+        # 2-4 bytes split by short reads): reduced slice of G05 (spec/ReadBuiltin.tla)
+        read_future = bg.submit(g05.run_stage, tier, rep, "c14")
 
         # ---- P2a/P3: scenario catalogue through the real shell -------------
         cat = os.path.join(wd, "catalogue.ndjson")
@@ -268,6 +291,7 @@ def run(tier):
         os.remove(ksrc)
 
         states, transitions, mcinfo, coverage = mc_future.result()
+        read_stage = read_future.result()
 
     unexercised = [a for a, c in coverage.items() if c == 0]
     if unexercised:
@@ -297,6 +321,7 @@ def run(tier):
         "syscall_records": k_records,
         "real_constants": consts,
         "aborted_on_hang": bool(runinfo.get("aborted")),
+        "read_stage": read_stage,
     }, time.time() - t0, violations=len(rep.violations), assumptions=[
         "the processes of a pipeline interleave only where the simulated kernel lets them (between polls of the "
         "scheduler); schedules are explored by bounded DFS, windows and seeded random choice, not exhaustively",
@@ -311,6 +336,9 @@ def replay(path):
     with open(path) as f:
         obj = json.load(f)
     rp = obj["replay"]
+    if isinstance(rp, dict) and rp.get("stage") == "g05":
+        from checks import g05
+        return g05.replay(path)
     wd = vlib.workdir(PID + "-replay")
     vlib.build_harness(PKG)
     t = os.path.join(wd, "one.ndjson")
